@@ -160,7 +160,7 @@ class Extractor:
     def parse_block(self, block):
         """parse the directive block of an EXTRACT."""
         d = dict(ret=None, safety=None, spec=None, loops={}, loopstart={}, loopend={}, inserts=[], substs=[], bodyonly=False,
-                 frm=None, to=None, optional=False, rename=None, pub=False, r4=False, replaces=[], pubfields=False, fnend=None, fnstart=None, attr=None, r4tail=False, frm_after=False, to_close=False, expand=[], maptail=False, closures=[])
+                 frm=None, to=None, optional=False, rename=None, pub=False, r4=False, replaces=[], pubfields=False, fnend=None, fnstart=None, attr=None, r4tail=False, frm_after=False, to_close=False, expand=[], maptail=False, closures=[], foreach=[], loophead=[])
         i = 0
 
         def grab(endmarks):
@@ -205,6 +205,16 @@ class Extractor:
                 d["expand"].append(w[1])
             elif k == "R10MAPTAIL":
                 d["maptail"] = True
+            elif k == "FOREACH":
+                # //@ FOREACH <n> <iter-name> | //@ FOREACH @<iter-name> <key tokens of the closure body>
+                txt, _ = grab(["ENDFOREACH"])
+                if w[1].startswith("@"):
+                    d["foreach"].append((" ".join(w[2:]), w[1][1:], txt))
+                else:
+                    d["foreach"].append((int(w[1]), w[2] if len(w) > 2 else "it", txt))
+            elif k == "LOOPHEAD":
+                # //@ LOOPHEAD @<iter-name> <key tokens>: name the ghost iterator of the `for` loop holding the key
+                d["loophead"].append((" ".join(w[2:]), w[1][1:]))
             elif k == "CLOSURE":
                 # //@ CLOSURE <recv>.<method>  /  head text  /  //@ ENDCLOSURE
                 txt, _ = grab(["ENDCLOSURE"])
@@ -217,7 +227,7 @@ class Extractor:
                 txt, _ = grab(["ENDSPEC"])
                 d["spec"] = txt
             elif k == "LOOP":
-                n = int(w[1])
+                n = s.split("@", 2)[2].strip() if w[1].startswith("@") else int(w[1])
                 txt, _ = grab(["ENDLOOP"])
                 d["loops"][n] = txt
             elif k == "FNEND":
@@ -227,11 +237,11 @@ class Extractor:
                 txt, _ = grab(["ENDFNSTART"])
                 d["fnstart"] = txt
             elif k == "LOOPSTART":
-                n = int(w[1])
+                n = s.split("@", 2)[2].strip() if w[1].startswith("@") else int(w[1])
                 txt, _ = grab(["ENDLOOPSTART"])
                 d["loopstart"][n] = txt
             elif k == "LOOPEND":
-                n = int(w[1])
+                n = s.split("@", 2)[2].strip() if w[1].startswith("@") else int(w[1])
                 txt, _ = grab(["ENDLOOPEND"])
                 d["loopend"][n] = txt
             elif k.startswith("BEFORE") or k.startswith("AFTER"):
@@ -468,6 +478,68 @@ class Extractor:
                     line = src.text.count("\n", 0, toks[h].start) + 1
                     self.lifts.append("%s:%d %s `%s` -> `%s`" % (rel, line, rule, " ".join(want)[:100], " ".join(new.split())[:80]))
 
+        # R10 (for_each): the n-th statement  `RECV.for_each(|PAT| { BODY });`  of the item becomes
+        #   `for PAT in <it>: RECV invariant .. { BODY }`   (BODY has no return / break / continue / `?`, so running it as a
+        # loop body is the same as running it as a closure per element)
+        if d["foreach"]:
+            fe = [k for k in range(a, b - 4) if toks[k].text == "." and toks[k + 1].text == "for_each" and toks[k + 2].text == "(" and toks[k + 3].text == "|"]
+            for (n, itname, inv) in d["foreach"]:
+                if isinstance(n, str):
+                    want = token_texts(n)
+                    cands = [kk for kk in fe if find_seq(toks, want, kk, src.tbl[kk + 2] + 1)]
+                    if len(cands) != 1:
+                        raise LostAnchor("%s: FOREACH key `%s` matches %d for_each calls in %s %s" % (rel, " ".join(want)[:80], len(cands), kind, name))
+                    k = cands[0]
+                    n = fe.index(k) + 1
+                else:
+                    if n > len(fe):
+                        raise LostAnchor("%s: FOREACH #%d: only %d `.for_each(|..|` calls in %s %s" % (rel, n, len(fe), kind, name))
+                    k = fe[n - 1]
+                q = k + 4
+                while toks[q].text != "|":
+                    q += 1
+                pat = src.text[toks[k + 3].end:toks[q].start].strip()
+                if toks[q + 1].text != "{":
+                    raise UnitError("FOREACH: closure body must be a block")
+                bo = q + 1
+                bc = src.tbl[bo]
+                pc = src.tbl[k + 2]
+                if pc != bc + 1 or toks[pc + 1].text != ";":
+                    raise UnitError("FOREACH: expected `});` after the closure body in %s %s" % (kind, name))
+                if any(toks[x].text in ("return", "break", "continue", "?") for x in range(bo, bc)):
+                    raise UnitError("FOREACH: closure body of for_each #%d in %s %s has control flow that a loop body would change" % (n, kind, name))
+                # receiver start: walk back to the start of the statement
+                r0 = k
+                while True:
+                    pt = toks[r0 - 1]
+                    if pt.kind == "punct" and pt.text in (")", "]") and (r0 - 1) in src.tbl:
+                        r0 = src.tbl[r0 - 1]
+                        continue
+                    if pt.kind == "punct" and pt.text in ("{", ";", "}"):
+                        break
+                    if pt.kind in ("comment", "doc"):
+                        break
+                    r0 -= 1
+                o = toks[r0].start - base
+                pieces.append(Piece(o, o, "for %s in %s: " % (pat, itname), "ins"))
+                s0, s1 = toks[k].start - base, toks[bo].end - base
+                # optional proof-only text at the start / end of the loop body (R8): sections after `//@ BODYSTART` / `//@ BODYEND`
+                sect = dict(inv=[], start=[], end=[])
+                cur_s = "inv"
+                for ln in inv.split("\n"):
+                    if ln.strip() == "//@ BODYSTART":
+                        cur_s = "start"
+                    elif ln.strip() == "//@ BODYEND":
+                        cur_s = "end"
+                    else:
+                        sect[cur_s].append(ln)
+                pieces.append(Piece(s0, s1, "\n" + "\n".join(sect["inv"]).rstrip("\n") + "\n{\n" + "\n".join(sect["start"]), "subst", old=orig[s0:s1], rule="R6"))
+                s0, s1 = toks[bc].start - base, toks[pc + 1].end - base
+                pieces.append(Piece(s0, s1, "\n".join(sect["end"]) + "\n}", "subst", old=orig[s0:s1], rule="R6"))
+                bump("R6")
+                line = src.text.count("\n", 0, toks[k].start) + 1
+                self.lifts.append("%s:%d R10 `X.for_each(|%s| {..});` -> `for %s in X {..}`" % (rel, line, pat, pat))
+
         # R8c: annotate the closure passed as the only argument of the unique call `recv.method(|x| ..)` in this item with a
         # typed parameter list and an `ensures` clause (proof-only text); an expression closure additionally gets braces.
         # The anchor is the call and the parameter name only, so an edit of the closure body keeps the anchor and is
@@ -640,8 +712,9 @@ class Extractor:
                 pieces.append(Piece(toks[body_lo].start - base, toks[body_lo].start - base, "\n" + d["spec"] + "\n", "ins"))
                 bump("R8")
             # loops
-            if d["loops"] or d["loopstart"] or d["loopend"]:
+            if d["loops"] or d["loopstart"] or d["loopend"] or d["loophead"]:
                 loop_idx = []
+                loop_kw = []
                 k = body_lo + 1
                 while k < body_hi:
                     t = toks[k]
@@ -656,10 +729,38 @@ class Extractor:
                                 j = src.tbl[j]
                             j += 1
                         loop_idx.append(j)
+                        loop_kw.append(k)
                     k += 1
-                for n in list(d["loops"]) + list(d["loopstart"]) + list(d["loopend"]):
-                    if n > len(loop_idx):
-                        raise LostAnchor("%s: fn %s has only %d loops, contract wants loop %d" % (rel, name, len(loop_idx), n))
+
+                def resolve_loop(n):
+                    """ordinal, or key: the innermost loop whose text contains the key token sequence"""
+                    if isinstance(n, int):
+                        if n > len(loop_idx):
+                            raise LostAnchor("%s: fn %s has only %d loops, contract wants loop %d" % (rel, name, len(loop_idx), n))
+                        return n - 1
+                    want = token_texts(n)
+                    best = None
+                    for li, (kw, op) in enumerate(zip(loop_kw, loop_idx)):
+                        if find_seq(toks, want, kw, src.tbl[op] + 1):
+                            if best is None or (src.tbl[op] - kw) < (src.tbl[loop_idx[best]] - loop_kw[best]):
+                                best = li
+                    if best is None:
+                        raise LostAnchor("%s: no loop of fn %s contains `%s`" % (rel, name, " ".join(want)[:80]))
+                    return best
+                for fld in ("loops", "loopstart", "loopend"):
+                    d[fld] = dict((resolve_loop(n) + 1, txt) for n, txt in d[fld].items())
+                for key, itname in d["loophead"]:
+                    li = resolve_loop(key)
+                    q = loop_kw[li] + 1
+                    while q < loop_idx[li] and not (toks[q].kind == "id" and toks[q].text == "in"):
+                        if toks[q].kind == "punct" and toks[q].text in "([":
+                            q = src.tbl[q]
+                        q += 1
+                    if toks[loop_kw[li]].text != "for" or q >= loop_idx[li]:
+                        raise UnitError("LOOPHEAD: loop holding `%s` is not a for loop" % key)
+                    o = toks[q].end - base
+                    pieces.append(Piece(o, o, " %s:" % itname, "ins"))
+                    bump("R8")
                 for n, txt in d["loops"].items():
                     o = toks[loop_idx[n - 1]].start - base
                     pieces.append(Piece(o, o, "\n" + txt + "\n", "ins"))
